@@ -904,8 +904,20 @@ def ground_malformed_values():
     return out
 
 
+def ground_script(name, what, claim):
+    """a ground obligation decided by a native scenario script on the real code (exit 1 = the scenario shows the violation)"""
+
+    def run():
+        from contracts.common import replay_script
+
+        rep = replay_script(name, what)({})
+        return [(claim, not rep.get("reproduced"), str(rep.get("detail"))[:400])]
+
+    return run
+
+
 def grounds():
-    return [Ground(f"{PROP}/config.malformed-values", ground_malformed_values, sources=("halmos.config:ParseTimeout.parse", "halmos.config:ParseErrorCodes.parse", "halmos.config:ParseCSVInt.parse", "halmos.config:TomlParser.parse_dict")), Ground(f"{PROP}/config.parse_csv#family", ground_csv_family, sources=("halmos.config:parse_csv", "halmos.config:ParseCSVInt.parse", "halmos.config:ParseCSVInt.unparse", "halmos.config:ParseArrayLengths.parse", "halmos.config:ParseArrayLengths.unparse")), Ground(f"{PROP}/config.Config.resolved_solver_command#stacks", ground_solver_stacks, sources=("halmos.config:Config.resolved_solver_command", "halmos.config:Config.__getattribute__")), Ground(f"{PROP}/config.arg_parser#not-given-is-None", ground_parser_defaults, sources=("halmos.config:_create_arg_parser",))]
+    return [Ground(f"{PROP}/config.generated-file#strings", ground_script("generated_toml_strings.py", "python -m halmos.config with string options holding backslashes and quotes", "the generated config file gives back every plain string option as it was given (backslashes, quotes, regular expressions, Windows paths)"), sources=("halmos.config:main",)), Ground(f"{PROP}/__main__.mk_solver#timeout", ground_script("branching_timeout_edges.py", "--solver-timeout-branching below 1ms and at / above 2**32 ms", "the branching timeout handed to z3 is `none` exactly for a configured 0, and a positive duration never turns into `none` or a wrapped-around value"), sources=("halmos.__main__:mk_solver",)), Ground(f"{PROP}/config.malformed-values", ground_malformed_values, sources=("halmos.config:ParseTimeout.parse", "halmos.config:ParseErrorCodes.parse", "halmos.config:ParseCSVInt.parse", "halmos.config:TomlParser.parse_dict")), Ground(f"{PROP}/config.parse_csv#family", ground_csv_family, sources=("halmos.config:parse_csv", "halmos.config:ParseCSVInt.parse", "halmos.config:ParseCSVInt.unparse", "halmos.config:ParseArrayLengths.parse", "halmos.config:ParseArrayLengths.unparse")), Ground(f"{PROP}/config.Config.resolved_solver_command#stacks", ground_solver_stacks, sources=("halmos.config:Config.resolved_solver_command", "halmos.config:Config.__getattribute__")), Ground(f"{PROP}/config.arg_parser#not-given-is-None", ground_parser_defaults, sources=("halmos.config:_create_arg_parser",))]
 
 
 def bounded():
